@@ -37,6 +37,16 @@ G_UnrecordedNextToSuccess == \E s \in Slots : Unrecorded(s) /\ Alive(pods[s]) /\
 \* the Job has an admission error (a task was refused for good), another task of it is alive, and a kill deadline lies ahead
 G_RefusedWithLiveKillAhead == job.ex /\ job.adm /\ ~job.del /\ job.kill > now /\ ~pass.busy /\ \E s \in Mine(pods) : Alive(pods[s]) /\ pods[s].dl = 0
 
+\* the Job is being deleted, its last task is terminating, and the event of its removal will be lost in a watch break:
+\* the Pod is gone from the API, still in the cache, with the removal undelivered
+G_LastTaskGoneUnseen == job.ex /\ job.del /\ job.fz /\ ~pass.busy /\ pq # <<>>
+                        /\ (\A s \in Slots : ~(pods[s].ex /\ pods[s].mine)) /\ (\E s \in Slots : pc[s].ex /\ pc[s].mine)
+
+\* ... and the watch has just broken: the re-list told the controller (by a tombstone only) that the last task is gone,
+\* and nothing else is about to wake the Job
+G_LastTaskGoneByRelist == last.a = "PodWatchBreak" /\ job.ex /\ job.del /\ job.fz /\ ~pass.busy /\ jq = <<>> /\ ~retry /\ ~timer
+                          /\ \A s \in Slots : ~(pods[s].ex /\ pods[s].mine) /\ ~(pc[s].ex /\ pc[s].mine)
+
 Emit(i, name, G) == ~G \/ TLCGet(i) >= K \/ (TLCSet(i, TLCGet(i) + 1) /\ PrintT(<<"SCHED", ToJson(sched), name>>))
 Goal1 == Emit(1, "UnrecordedDecided", G_UnrecordedDecided)
 Goal2 == Emit(2, "MarkedThenSucceeded", G_MarkedThenSucceeded)
@@ -45,8 +55,10 @@ Goal4 == Emit(4, "FinishedWithLive", G_FinishedWithLive)
 Goal5 == Emit(5, "DeletingAfterCrash", G_DeletingAfterCrash)
 Goal7 == Emit(7, "UnrecordedNextToSuccess", G_UnrecordedNextToSuccess)
 Goal8 == Emit(8, "RefusedWithLiveKillAhead", G_RefusedWithLiveKillAhead)
+Goal9 == Emit(9, "LastTaskGoneUnseen", G_LastTaskGoneUnseen)
+Goal10 == Emit(10, "LastTaskGoneByRelist", G_LastTaskGoneByRelist)
 Goal6 == Emit(6, "RetryWhileOtherRuns", G_RetryWhileOtherRuns)
 Stop == \E i \in Goals : TLCGet(i) < K
-GInit == SInit /\ \A i \in 1..8 : TLCSet(i, 0)
+GInit == SInit /\ \A i \in 1..10 : TLCSet(i, 0)
 GSpec2 == GInit /\ [][GNext]_svars
 ====
